@@ -206,6 +206,66 @@ def run_sweep(ctx, corr, binp, drv):
     corr.distribution['class-sweep-printable'] = total
 
 
+def run_bigfilter(ctx, corr, binp, drv, reps):
+    """Set.Filter on large sets under several GOMAXPROCS values, several runs each"""
+    fin, fout = os.path.join(ctx.dir, 'big.in'), os.path.join(ctx.dir, 'big.out')
+    rc, o = ctx.run([binp, 'bigfilter', str(reps), fin, fout], timeout=1200)
+    if rc != 0:
+        raise V.BuildError('c17 bigfilter failed: ' + o[-1500:])
+    fml = os.path.join(ctx.dir, 'big.ml')
+    rc, o = ctx.run('%s filterlines < %s > %s' % (drv, fin, fml), timeout=1200)
+    if rc != 0:
+        raise V.BuildError('glob_driver filterlines failed: ' + o[-1500:])
+    ins = [l for l in open(fin).read().split('\n') if l]
+    mls = [l for l in open(fml).read().split('\n')]
+    runs = 0
+    recorded = 0
+    for line in open(fout):
+        line = line.rstrip('\n')
+        if not line:
+            continue
+        ci, procs, rep, ln, want, bits = line.split(' ')
+        ci, ln, want = int(ci), int(ln), int(want)
+        runs += 1
+        ml = mls[ci]
+        mm, ms = ml[0::2], ml[1::2]
+        if ml.endswith('!') or len(mm) < len(bits):
+            raise V.BuildError('filterlines: malformed model output for case %d' % ci)
+        mm, ms = mm[:len(bits)], ms[:len(bits)]
+        key = 'set-filter-large n=%d' % len(bits)
+        corr.distribution[key] = corr.distribution.get(key, 0) + 1
+        if bits == mm and bits == ms and ln == want and bits.count('M') == want:
+            continue
+        if recorded >= 6:
+            continue
+        recorded += 1
+        fields = ins[ci].split(' ')
+        ph, names = fields[0], fields[1:]
+        pat = bytes.fromhex(ph) if ph != '-' else b''
+        # a concrete element on which the result is wrong
+        j = next((k for k in range(len(bits)) if bits[k] != ms[k]), None)
+        if j is None:
+            j = next((k for k in range(len(bits)) if bits[k] != mm[k]), 0)
+        nm = bytes.fromhex(names[j])
+        case = mk_case(4 * 10 ** 9 + runs, 'set-filter-large', pat, nm)
+        case['input'].update({'set_size': len(bits), 'gomaxprocs': int(procs), 'run': int(rep),
+                              'set': 'the paths src/d<i%7>/f<i> + (.x if i%3==0, .go if i%3==1) for i < set_size',
+                              'note': 'name is one element on which the result is wrong; the lost elements vary from run to run'})
+        got = 'Filter keeps %d of %d elements (len %d); element %s' % (
+            bits.count('M'), len(bits), ln, 'kept' if bits[j] == 'M' else 'dropped')
+        exp = 'exactly the %d matching elements (by construction of the names); spec keeps %d; element %s' % (
+            want, ms.count('M'), 'kept' if ms[j] == 'M' else 'dropped')
+        if bits != ms or ln != want or bits.count('M') != want:
+            corr.violations.append({'klass': 'set-filter-large', 'case': case, 'impl': got, 'expected': exp,
+                                    'what': 'Set.Filter on a large set does not return exactly the elements that match the pattern'})
+        else:
+            corr.disagreements.append({'klass': 'set-filter-large', 'case': case, 'impl': got,
+                                       'model': 'set_filter keeps %d' % mm.count('M')})
+    corr.evaluations += runs
+    corr.distinct_nontrivial += len(ins)
+    corr.extra['large_set_filter_runs'] = runs
+
+
 def run_rand(ctx, corr, binp, drv, n):
     fin, fout = os.path.join(ctx.dir, 'rand.in'), os.path.join(ctx.dir, 'rand.out')
     rc, o = ctx.run([binp, 'rand', str(n), fin, fout])
@@ -278,6 +338,7 @@ def correspondence(ctx):
     run_rand(ctx, corr, binp, drv, 30000 if ctx.tier == 'quick' else 300000)
     run_filter(ctx, corr, binp, drv, 3, 3)
     run_sweep(ctx, corr, binp, drv)
+    run_bigfilter(ctx, corr, binp, drv, 3 if ctx.tier == 'quick' else 12)
     if ctx.tier == 'quick':
         run_enum(ctx, corr, binp, drv, 0, 4, 4, 'q')
     else:
@@ -288,7 +349,11 @@ def correspondence(ctx):
                  "x every name of length <= 4 over {a b / -}, three-valued result of match() vs extracted model vs extracted spec; "
                  "Set.Filter on the set of all names <= 3 for every pattern <= 3; class sweep: [B] [^B] *[B] with B = x, xy, xyz, x over all 95 printable "
                  "ASCII characters, y and z over {a - / ] ^ ! \\}, against the empty name, every single printable character and every "
-                 "two-character name over that small set; random pairs (fixed regression corpus first): ASCII (letters plus the punctuation "
+                 "two-character name over that small set; Set.Filter on large sets "
+                 "(1023, 1024, 1025, 1027, 2049, 4099, 10007 generated paths; patterns *, *x, one literal element, a class, a malformed one) under "
+                 "GOMAXPROCS 1, 2, 3, 4, 7 and the default, 3 runs each (thorough: 12) on freshly built maps, membership of every element "
+                 "compared with the extracted model's and spec's filter and the size with the count known from how the paths are built; "
+                 "random pairs (fixed regression corpus first): ASCII (letters plus the punctuation "
                  "that shells/fnmatch treat specially: ! { } , ~ + @ ( ) | ...) and UTF-8 token patterns with a name derived from the pattern and then mutated, star followed by single-character terms "
                  "against multi-byte names (F17 shape), ill-formed bytes in names, malformed pattern pieces, ill-formed bytes in patterns. "
                  "distinct = distinct (pattern, name); non-trivial = the pattern contains one of * ? [ \\")
@@ -301,7 +366,8 @@ def replay(ctx, case):
     drv = os.path.join(V.BUILD, 'extract', 'glob', 'glob_driver')
     inp = case.get('input') or case.get('case', {}).get('input') or {}
     p = os.path.join(ctx.dir, 'replay_case.json')
-    json.dump({'pattern_hex': inp.get('pattern_hex', '-'), 'name_hex': inp.get('name_hex', '-')}, open(p, 'w'))
+    json.dump({'pattern_hex': inp.get('pattern_hex', '-'), 'name_hex': inp.get('name_hex', '-'),
+               'set_size': inp.get('set_size', 0), 'gomaxprocs': inp.get('gomaxprocs', 0)}, open(p, 'w'))
     rc, o = ctx.run([binp, 'replay', p])
     print(o.strip())
     rc, o = ctx.run('echo %s %s | %s lines' % (inp.get('pattern_hex', '-'), inp.get('name_hex', '-'), drv))
